@@ -777,7 +777,8 @@ bool QXmppStunMessage::decode(const QByteArray &buffer, const QByteArray &key, Q
             }
 
             // stop parsing, no more attributes are allowed
-            return true;
+            // (with a key, the message must have carried a verified MESSAGE-INTEGRITY)
+            return after_integrity || key.isEmpty();
 
         } else if (a_type == IceControlling) {
 
@@ -805,6 +806,12 @@ bool QXmppStunMessage::decode(const QByteArray &buffer, const QByteArray &key, Q
         }
         stream.skipRawData(pad_length);
         done += 4 + a_length + pad_length;
+    }
+
+    // a key was given: only a message that carried a (verified) MESSAGE-INTEGRITY attribute is acceptable
+    if (!key.isEmpty() && !after_integrity) {
+        *errors << u"Missing message integrity"_s;
+        return false;
     }
     return true;
 }
